@@ -56,6 +56,12 @@ def run(rep, F, ctx):
 
     atomic.fail_atomic(rep, F, cg, only={'<%s as %s>::move_p' % (MEMFS, TR)})
     p_C04.snapshot(rep, F, A)
+    rep.rule('PAIR', '_copy: every copied non-link file entry gets its data stored under the destination key (after _add, insert_file on every path, unless the source is a link)')
+    M = atomic.Mutation(F, cg)
+    P = atomic.PairCheck(F, cg, M)
+    P.after(rep, 'PAIR', 'pair:_copy:_add->insert_file', '<%s>::_copy' % MEMFS, lambda B, i, t: (callee_of(t) or '').endswith('>::_add'),
+            lambda B, i, t: (callee_of(t) or '').endswith('>::insert_file'), [('true', r'^is_symlink\(')],
+            '_copy: a copied non-link file gets its data stored under the new key')
     t = engine.load_table('setters.json')
     setters.setter(rep, F, cg, {k: v for k, v in t.items() if k.startswith('<sys::fs::copy::Copier>')})
 
